@@ -24,6 +24,9 @@ INNERS = {
     'letmember-name': (('py', 'n'), []),
     # an inner let that shadows a name bound outside the wrappers (the outer value is read again afterwards)
     'shadowlet': (('let', 'v', X, ('py', 'v')), []),
+    # choices that cannot fail as a whole, whose first option may consume input before it fails
+    'partial-choice-opt': (('choice', ('seq', X, ('str', 'zz')), ('opt', ('ref', 'R'))), [('R', ('rule', None, X))]),
+    'partial-choice-star': (('choice', ('right', X, ('str', 'y')), ('star', ('ref', 'R'))), [('R', ('rule', None, X))]),
 }
 WRAPPERS = {
     'seq': lambda e: ('seq', e),
@@ -177,7 +180,7 @@ def dispatch(job):
 
 def run(tier, seed):
     chk = Check('C17', tier, seed)
-    chk.rule = ('15 inner expressions (string, regex, rule reference, template call, class, sequence with rule references, use of a let name, '
+    chk.rule = ('17 inner expressions (two choices that cannot fail as a whole but whose first option may fail after consuming, string, regex, rule reference, template call, class, sequence with rule references, use of a let name, '
                 'data-dependent count, choice of rule references, an inner let shadowing an outer name, counts used as lower / upper bound only, counts and names bound by plain and let class members) x 6 wrapper kinds ([e], (e), Opt(e), "\\x00"|e, ""'
                 '>>e, mixed) x every nesting depth 1..60 plus 70..120 step 10 (thorough: every depth 1..130) x ignore off/on x unnamed/named, on the '
                 'accepted text and near-misses; the rule-bearing inner kinds additionally in a base grammar extended by a grammar that overrides the rule (and adds an ignore) at 15 depths (thorough 1..69); oracle: reference model of the wrapped expression; plus input-driven rule recursion to '
